@@ -503,9 +503,10 @@ def ontology_scenarios(ctx, rng, rounds, cap):
 
 
 def graph_dump(g):
-    return {'nodes': [t.value for t in g], 'root': g.root.value,
-            'parents': [[n.value, sorted(p.value for p in g.get_parents(n))] for n in g],
-            'children': [[n.value, sorted(p.value for p in g.get_children(n))] for n in g]}
+    # sets, not sequences: in which order a graph lists its nodes is not specified
+    return {'nodes': sorted(t.value for t in g), 'root': g.root.value,
+            'parents': sorted([n.value, sorted(p.value for p in g.get_parents(n))] for n in g),
+            'children': sorted([n.value, sorted(p.value for p in g.get_children(n))] for n in g)}
 
 
 def factory_reuse(ctx, rng, thorough):
